@@ -48,6 +48,35 @@ Definition reuse_values_fn (f : uflags) (ch : chart) (cur : revision) (newv : vm
   else if is_empty newv && negb (is_empty (rconfig cur)) then Some (ch, rconfig cur)
   else Some (ch, newv).
 
+(* chartutil.ProcessDependencies(chart, vals) for charts whose Chart.yaml lists no
+   dependencies (the charts of these chains): nothing is disabled or imported, but
+   processDependencyEnabled still coalesces — CoalesceValues(c, v) at every chart that has
+   subcharts, and it hands the PARENT's coalesced values (not the subchart's section) down to
+   each subchart — so it can fail with "type mismatch" where rendering alone would not: a
+   top-level value that is not a table and is named like a grandchild chart is enough.
+   [true] = no error. *)
+Fixpoint pd_ok (c : chart) (v : vmap) {struct c} : bool :=
+  match c with
+  | mkChart _ _ deps =>
+      match deps with
+      | [] => true
+      | _ =>
+          match coalesce false c v with
+          | None => false
+          | Some cvals =>
+              (fix all (ds : list chart) : bool :=
+                 match ds with
+                 | [] => true
+                 | t :: ds' => pd_ok t cvals && all ds'
+                 end) deps
+          end
+      end
+  end.
+
+(* ProcessDependencies, then ToRenderValues *)
+Definition render (c : chart) (v : vmap) : option vmap :=
+  if pd_ok c v then to_render_values c v else None.
+
 Inductive op :=
 | OInstall (c : chart) (vals : vmap)
 | OUpgrade (f : uflags) (c : chart) (vals : vmap)
@@ -67,7 +96,7 @@ Definition step (h : history) (o : op) : option revision :=
   match o with
   | OInstall c vals =>
       match h with
-      | [] => match to_render_values c vals with
+      | [] => match render c vals with
               | Some r => Some (mkRev vals c r)
               | None => None
               end
@@ -80,7 +109,7 @@ Definition step (h : history) (o : op) : option revision :=
           match reuse_values_fn f c cur vals with
           | None => None
           | Some (c', vals') =>
-              match to_render_values c' vals' with
+              match render c' vals' with
               | Some r => Some (mkRev vals' c' r)
               | None => None
               end
